@@ -148,7 +148,12 @@ def warmup_sessions(ck, n_scen):
         w = rng.choice([None, 0, 1, 2, 3, 5])
         n_inv = rng.randint(1, 4)
         its = rng.randint(1, 7)
-        vals = [[round(rng.uniform(1, 500), rng.choice([0, 1, 3, 6])) for _ in range(its)] for _ in range(n_inv)]
+        if rng.random() < 0.3:
+            # many significant digits: a large common offset plus binary fractions (exact in the file's six decimals)
+            off = rng.choice([987654321, 123456789, 40000000])
+            vals = [[off + rng.randint(0, 640) / 64.0 for _ in range(its)] for _ in range(n_inv)]
+        else:
+            vals = [[round(rng.uniform(1, 500), rng.choice([0, 1, 3, 6])) for _ in range(its)] for _ in range(n_inv)]
         scen.append((w, n_inv, its, vals))
         ops.append({'op': 'c15.warmup', 'w': w or 0,
                     'invs': [[{'it': k + 1, 'total': lib.frac(v)} for k, v in enumerate(inv)] for inv in vals]})
